@@ -3,7 +3,7 @@
 # applies the seed's patch in the scratch worktree, runs the given quick checks against it
 # (PDL_REPO override: /repo itself is not touched), reverts the patch.
 WT=$1; SEED=$2; shift 2
-cd /verif
+cd "$(dirname "$0")"
 git -C $WT checkout -q -- . && git -C $WT apply $SEED/patch.diff || { echo "patch failed"; exit 3; }
 for c in "$@"; do
   echo "=== $c on $SEED"
